@@ -62,7 +62,7 @@ CovReport == PrintT(ToJson([ev |-> "COVERAGE", names |-> KindNames,
 
 (* hide the consumed part of the input: the future does not depend on it *)
 NoAttr(sq) == [i \in 1..Len(sq) |-> [sq[i] EXCEPT !.attr = <<>>]]
-View == << [d EXCEPT !.inp = SubSeq(d.inp, d.rp + 1, Len(d.inp)), !.rp = 0, !.nsym = 0, !.fpos = 0,
+View == << [d EXCEPT !.inp = SubSeq(d.inp, d.rp + 1, Len(d.inp)), !.rp = 0, !.nsym = 0, !.fpos = 0, !.table = 0,
                      !.atoms = NoAttr(@), !.stack = NoAttr(@),
                      !.pend = IF @.k = "branch" THEN [@ EXCEPT !.at = 0] ELSE @],
            Len(d.inp) >>
@@ -111,7 +111,7 @@ InvEmptyOut == (d.pc = "done" /\ Len(d.atoms) = 0) => d.out = ""
 (* the same outcome and the same molecule with the same attribution          *)
 StripNop(sq) == SelectSeq(sq, LAMBDA t : t # "[nop]")
 NopInvisible ==
-  Terminal(d) => LET e == Run(InitStateC(StripNop(d.inp), TRUE, d.compat))
+  Terminal(d) => LET e == Run(InitStateT(StripNop(d.inp), TRUE, d.compat, d.table))
                  IN Outcome(e) = Outcome(d) /\ e.atoms = d.atoms /\ e.bonds = d.bonds /\ e.otok = d.otok
 
 (* C18: with compatible=True the result is that of the modernised string    *)
@@ -119,7 +119,7 @@ NopInvisible ==
 ModernSeq(sq) == [i \in 1..Len(sq) |-> Modernize(sq[i])]
 CompatIsModern ==
   (Terminal(d) /\ d.compat) =>
-     LET e == Run(InitStateC(ModernSeq(d.inp), TRUE, FALSE))
+     LET e == Run(InitStateT(ModernSeq(d.inp), TRUE, FALSE, d.table))
      IN Outcome(e) = Outcome(d) /\ e.fuzzy = d.fuzzy /\ e.bonds = d.bonds
 
 (* C07: over the robust alphabet the derivation never meets an invalid symbol *)
